@@ -15,7 +15,7 @@ THEOREMS = [T + n for n in ("matchNumber_int", "parse_value_int", "parse_value_q
                             "go_fuel2", "tokens_pad", "tokens_word", "tokens_quoted", "row_tokens", "fmtInt_field")]
 # loop rows with fixed-point numbers (atom-site loops): the written number is a well-formed field, the row is cut into its fields, the
 # token reads back as the 12-decimal rounding of the value
-THEOREMS += ["ChmpyVerif.Props.C15." + n for n in ("fmtFixed_field", "fixedCore_reads_back", "fixedCore_error", "atom_site_row_tokens", "alnum_isWord", "atom_site_row_tokens_alnum")]
+THEOREMS += ["ChmpyVerif.Props.C15." + n for n in ("empty_string_quoted", "fmtFixed_field", "fixedCore_reads_back", "fixedCore_error", "atom_site_row_tokens", "alnum_isWord", "atom_site_row_tokens_alnum")]
 TRUSTED = [
     "hand model Model/Cif.lean of parse_value / NUM_ERR_REGEX / parse_quote / VALUES_REGEX / format_field / Cif.to_string / Cif.parse "
     "(line-driven state machine; multi-line ';' text fields not modelled); tied by whole-document correspondence incl. a malformed stream",
@@ -50,7 +50,11 @@ def gen(ctx):
 
 
 def rand_string(rng, blanks):
+    if rng.random() < 0.04:
+        return ""                         # the empty string is a string (written '')
     k = rng.randint(1, 3) if blanks else 1
+    if blanks and rng.random() < 0.06:
+        k = rng.randint(14, 40)          # a long free-text value (80-250 characters), ';' and '#' among its later words
     parts = [rng.choice(WORDS)] + [rng.choice(WORDS + ["#3", "#", "a#b", "_x", "loop_", "data_y", ";"]) for _ in range(k - 1)]
     s = parts[0]
     for p in parts[1:]:
